@@ -84,7 +84,8 @@ class Collocator:
     # arrays to concatenate the results without problems:
     @property
     def no_pairs(self):
-        return np.array([[], []])
+        # Integers: the rows are used as index arrays
+        return np.array([[], []], dtype=int)
 
     @property
     def no_intervals(self):
